@@ -22,7 +22,7 @@ func init() {
 	})
 	register(&explore.Prop{
 		ID: "C16", Level: levelMC, Explorer: "E1 input-space enumerator",
-		Rule: "built, persisted+loaded, merged and merged-again segments of the MIX/MERGE scopes with field length == sum of term frequencies; CollectionStats of every field (and an unknown one) compared with the reference model's two definitions (built: docs carrying the field / sum of lengths; merged: survivors with >=1 term / sum of freq); CollectionStats.Merge checked on every ordered pair of a 20-value set; " +
+		Rule: "built, persisted+loaded, merged and merged-again segments of the MIX/MERGE scopes with field length == sum of term frequencies; CollectionStats of every field (and an unknown one) compared with the reference model's two definitions (built: docs carrying the field / sum of lengths; merged: survivors with >=1 term / sum of freq); CollectionStats.Merge checked on every ordered pair of a measured value set (<=40 values, incl. known-but-empty fields); " +
 			"distinct = distinct case; non-trivial = some term has freq>=2 or occurs in >=2 segments or a document is dropped",
 		Assumptions: commonAssumptions, Budget: qBudget, Run: runC16,
 	})
@@ -318,13 +318,13 @@ func statsMergeCheck(c *explore.Ctx) {
 	// collect 20 stats values from real segments
 	var vals []segment.CollectionStats
 	var raw []model.Stats
-	gen.Mix(6, 2, "m", func(idx int64, batch []gen.Doc, kinds []int) bool {
+	gen.Mix(9, 2, "m", func(idx int64, batch []gen.Doc, kinds []int) bool {
 		model.SumFreqLen(batch)
 		seg, err := build(batch, 1025)
 		if err != nil {
 			return true
 		}
-		for _, f := range []string{"a", "b", "nosuch"} {
+		for _, f := range []string{"_id", "a", "b", "nosuch"} {
 			cs, _ := seg.CollectionStats(f)
 			s := model.Stats{Total: cs.TotalDocumentCount(), Docs: cs.DocumentCount(), SumTF: cs.SumTotalTermFrequency()}
 			dup := false
@@ -333,13 +333,24 @@ func statsMergeCheck(c *explore.Ctx) {
 					dup = true
 				}
 			}
-			if !dup && len(vals) < 20 {
+			if !dup && len(vals) < 40 {
 				vals = append(vals, cs)
 				raw = append(raw, s)
 			}
 		}
-		return len(vals) < 20
+		return len(vals) < 40
 	})
+	// the set must contain the shape "field known to the segment but carried by no document"
+	shape := false
+	for _, r := range raw {
+		if r.Total > 0 && r.Docs == 0 {
+			shape = true
+		}
+	}
+	if !shape {
+		c.R.Error = "C16 stats-merge value set lacks a value with TotalDocumentCount>0 and DocumentCount==0"
+		return
+	}
 	scope := "STATS-MERGE"
 	var idx int64
 	for i := range vals {
